@@ -178,7 +178,7 @@ def decide(pid, tier, seed, jobs, record, no_bounded, t0):
     for fn, o in covers:
         by_name.setdefault(o["name"], []).append(o["status"])
     for nm, sts in by_name.items():
-        if all(x == "vacuous" for x in sts) or (("cover.requires" in nm or "cover.exit" in nm) and "vacuous" in sts):
+        if ("cover.requires" in nm and "vacuous" in sts) or ("cover.loop" in nm and all(x == "vacuous" for x in sts)):
             guard_problems.append(f"vacuous path condition: {nm}")
     for r in crash:
         guard_problems.append(f"engine crash in {r['function']}: {r.get('reason', '')[-400:]}")
